@@ -5,31 +5,90 @@ From TLV Require Import Model.Errors.
 Import ListNotations.
 
 Section SL.
-Variables (St E : Type) (err : St -> E) (Or : soracle St) (rbc : bool).
+Variables (St E : Type) (err : St -> E) (Or : soracle St) (rbc normalize : bool).
 Definition s_last_ok (r : St * list E) : Prop := exists es, snd r = es ++ [err (fst r)].
+(* the normalisation applied after the error was recorded keeps the error (it keeps the represented tensor) *)
+Hypothesis Hnorm : forall st, err (s_norm Or st) = err st.
 (* either the value is recorded before the callback may stop the run, or the callback never stops it *)
 Hypothesis Hcase : rbc = true \/ (forall it, s_cb_stop Or it = false).
 
-Lemma s_loop_ok : forall n it cur errs, (n = 0 -> s_last_ok (cur, errs)) -> s_last_ok (s_loop err Or rbc n it cur errs).
+Lemma s_loop_ok : forall n it cur errs, (n = 0 -> s_last_ok (cur, errs)) -> s_last_ok (s_loop err Or rbc normalize n it cur errs).
 Proof.
   induction n as [|n IH]; intros it cur errs H0; [now apply H0|]. cbn [s_loop].
+  set (st := s_update Or it cur). set (stN := if normalize then s_norm Or st else st).
+  assert (HN : err stN = err st) by (unfold stN; destruct normalize; [apply Hnorm | reflexivity]).
+  assert (Hok : s_last_ok (stN, errs ++ [err st])) by (exists errs; cbn; now rewrite HN).
   destruct (s_cb_stop Or it) eqn:Hcb.
-  - destruct Hcase as [-> | Hn]; [now exists errs | rewrite Hn in Hcb; discriminate].
-  - destruct (s_stop Or it); [now exists errs|]. apply IH. intros _. now exists errs.
+  - destruct Hcase as [-> | Hn]; [exact Hok | rewrite Hn in Hcb; discriminate].
+  - destruct (s_stop Or it); [exact Hok|]. apply IH. intros _. exact Hok.
 Qed.
-Theorem s_loop_sound n init : 0 < n -> s_last_ok (s_loop err Or rbc n 0 init []).
+Theorem s_loop_sound n init : 0 < n -> s_last_ok (s_loop err Or rbc normalize n 0 init []).
 Proof. intros Hn. apply s_loop_ok. intros ->. inversion Hn. Qed.
 End SL.
 
 (* randomised_parafac before fix 28121fa (value appended AFTER the callback): a callback stopping the run in iteration 1 left the
    error of the iterate of iteration 0 as the last entry of the returned list *)
-Definition toy_s : soracle nat := mkS (fun _ st => S st) (fun _ => false) (fun it => Nat.eqb it 1).
+Definition toy_s : soracle nat := mkS (fun _ st => S st) (fun _ => false) (fun it => Nat.eqb it 1) (fun st => st).
 Theorem s_loop_callback_stop_refuted :
-  exists (Or : soracle nat) (n : nat) (init : nat), 0 < n /\ ~ s_last_ok nat nat (fun st => st) (s_loop (fun st : nat => st) Or false n 0 init []).
+  exists (Or : soracle nat) (n : nat) (init : nat), 0 < n /\ ~ s_last_ok nat nat (fun st => st) (s_loop (fun st : nat => st) Or false true n 0 init []).
 Proof.
   exists toy_s, 5, 0. split; [lia|]. vm_compute. intros [es H].
   apply (f_equal (@rev nat)) in H. rewrite rev_unit in H. simpl in H. discriminate.
 Qed.
 Example s_loop_nonvacuous :
-  s_loop (fun st : nat => st) toy_s true 5 0 0 [] = (2, [1; 2]) /\ s_loop (fun st : nat => st) toy_s false 5 0 0 [] = (2, [1]).
+  s_loop (fun st : nat => st) toy_s true true 5 0 0 [] = (2, [1; 2]) /\ s_loop (fun st : nat => st) toy_s false true 5 0 0 [] = (2, [1]).
 Proof. vm_compute. split; reflexivity. Qed.
+
+(* ---- round 5: EVERY entry of the returned list, not only the last one.  Entry j of the list returned by a run of n iterations is
+   the error of the iterate RETURNED by the run cut after j+1 iterations (same oracle, same start): every recorded value is the
+   error of the iterate of its iteration.  Holds for both orderings of record / callback and for every stop pattern (a stop only
+   shortens the list); the Python predicate C06_list_prefix_consistent tests this statement on real runs. *)
+Section SLall.
+Variables (St E : Type) (err : St -> E) (Or : soracle St) (rbc normalize : bool).
+Hypothesis Hnorm : forall st, err (s_norm Or st) = err st.
+
+Lemma s_loop_extends : forall n it cur errs, exists tl, snd (s_loop err Or rbc normalize n it cur errs) = errs ++ tl.
+Proof.
+  induction n as [|n IH]; intros it cur errs; cbn [s_loop]; [exists []; cbn; now rewrite app_nil_r|].
+  destruct (s_cb_stop Or it).
+  - destruct rbc; cbn; [eexists; reflexivity | exists []; now rewrite app_nil_r].
+  - destruct (s_stop Or it); [cbn; eexists; reflexivity|].
+    destruct (IH (S it) (if normalize then s_norm Or (s_update Or it cur) else s_update Or it cur) (errs ++ [err (s_update Or it cur)])) as [tl Htl].
+    rewrite Htl, <- app_assoc. eexists; reflexivity.
+Qed.
+
+Lemma s_loop_entry : forall n it cur errs j, length errs <= j -> j < length (snd (s_loop err Or rbc normalize n it cur errs)) ->
+  nth_error (snd (s_loop err Or rbc normalize n it cur errs)) j
+  = Some (err (fst (s_loop err Or rbc normalize (S j - length errs) it cur errs))).
+Proof.
+  induction n as [|n IH]; intros it cur errs j Hlo Hhi; [cbn in Hhi; lia|].
+  replace (S j - length errs) with (S (j - length errs)) by lia.
+  cbn [s_loop] in *.
+  set (st := s_update Or it cur) in *. set (stN := if normalize then s_norm Or st else st) in *.
+  assert (HN : err stN = err st) by (unfold stN; destruct normalize; [apply Hnorm | reflexivity]).
+  destruct (s_cb_stop Or it).
+  - destruct rbc; cbn [fst snd] in *; [|lia].
+    rewrite app_length in Hhi; cbn in Hhi. assert (j = length errs) by lia; subst j.
+    rewrite nth_error_app2, Nat.sub_diag by lia. cbn. now rewrite HN.
+  - destruct (s_stop Or it).
+    + cbn [fst snd] in *. rewrite app_length in Hhi; cbn in Hhi. assert (j = length errs) by lia; subst j.
+      rewrite nth_error_app2, Nat.sub_diag by lia. cbn. now rewrite HN.
+    + destruct (Nat.eq_dec j (length errs)) as [-> | Hne].
+      * rewrite Nat.sub_diag. cbn [s_loop fst].
+        destruct (s_loop_extends n (S it) stN (errs ++ [err st])) as [tl Htl]. rewrite Htl, <- app_assoc.
+        rewrite nth_error_app2, Nat.sub_diag by lia. cbn. now rewrite HN.
+      * assert (Hlo' : length (errs ++ [err st]) <= j) by (rewrite app_length; cbn [length]; lia).
+        rewrite (IH (S it) stN (errs ++ [err st]) j Hlo' Hhi).
+        rewrite app_length. cbn [length]. replace (S j - (length errs + 1)) with (j - length errs) by lia. reflexivity.
+Qed.
+
+Theorem s_loop_every_entry n init j : j < length (snd (s_loop err Or rbc normalize n 0 init [])) ->
+  nth_error (snd (s_loop err Or rbc normalize n 0 init [])) j = Some (err (fst (s_loop err Or rbc normalize (S j) 0 init []))).
+Proof. intros H. rewrite (s_loop_entry n 0 init [] j); [now rewrite Nat.sub_0_r | cbn; lia | exact H]. Qed.
+End SLall.
+
+(* toy_s (callback stop in iteration 1), 5 iterations allowed: entries 0 and 1 are the errors of the 1-run and the 2-run *)
+Example s_loop_every_entry_nonvacuous :
+  snd (s_loop (fun st : nat => st) toy_s true true 5 0 0 []) = [fst (s_loop (fun st : nat => st) toy_s true true 1 0 0 []);
+                                                               fst (s_loop (fun st : nat => st) toy_s true true 2 0 0 [])].
+Proof. vm_compute. reflexivity. Qed.
